@@ -141,8 +141,19 @@ def _coeffs(case, m):
     return c1, c2, a, b
 
 
-def _eval(spec, m, dt, Jk, seed):
-    agg = make_agg(spec, m, dt)
+_INSTANCES = {}
+
+
+def _eval(spec, m, dt, Jk, seed, reuse=None):
+    # reuse: the three calls of a case go through ONE aggregator instance (state carried from call to call - a private
+    # random generator, a cache - must not matter once torch is re-seeded)
+    if reuse is not None:
+        agg = _INSTANCES.get(reuse)
+        if agg is None:
+            _INSTANCES.clear()
+            agg = _INSTANCES[reuse] = make_agg(spec, m, dt)
+    else:
+        agg = make_agg(spec, m, dt)
     torch.manual_seed(seed)
     x = to64(agg(Jk))
     if hasattr(agg, "weighting") and spec["name"] != "ConFIG":
@@ -176,8 +187,9 @@ def run_case(case):
 
     def evaluate(sp):
         xs, ws = [], []
+        reuse = (sig, repr(sorted(sp.items(), key=str))) if (case["cseed"] % 2 == 0 and name in ("PCGrad", "Random", "Mean", "Sum", "ConFIG")) else None
         for M in Jk:
-            x, w = _eval(sp, m, dt, M, seed)
+            x, w = _eval(sp, m, dt, M, seed, reuse=reuse)
             xs.append(x)
             ws.append(w)
         return xs, ws, float(np.abs(xs[2] - a * xs[0] - b * xs[1]).max()) if n else 0.0
